@@ -3,6 +3,7 @@ package main
 import (
 	"encoding/json"
 	"fmt"
+	"regexp"
 
 	"verifharness/internal/gc"
 	"verifharness/internal/lp"
@@ -59,8 +60,10 @@ var fmtCases = []fmtCase{
 		"f32":{"type":"number","format":"float"},"f64":{"type":"number","format":"double"},"sf64":{"type":"string","format":"float64"},"sf32":{"type":"string","format":"float32"},"sb":{"type":"string","format":"boolean"}}}`,
 		[]string{`{"uuid":"123e4567-e89b-12d3-a456-426614174000"}`, `{"ip":"1.2.3.4"}`, `{"ip":"::1"}`, `{"ip4":"255.255.255.255"}`, `{"ip6":"2001:db8::1"}`, `{"uri":"http://example.com/p?q=1#f"}`,
 			`{"dur":"1h2m3s"}`, `{"dur":"0s"}`, `{"dur":"-1.5s"}`, `{"dt":"2023-11-14T22:13:20Z"}`, `{"dt":"2023-11-14T22:13:20.123456789+05:30"}`, `{"d":"2023-11-14"}`, `{"t":"22:13:20"}`, `{"by":"AAEC/w=="}`, `{"by":""}`,
-			`{"f32":0.5}`, `{"f32":16777216}`, `{"f64":1e-11}`, `{"f64":9007199254740993}`, `{"f64":1.7976931348623157e308}`, `{"sf64":"0.1"}`, `{"sf32":"0.5"}`, `{"sb":"true"}`, `{"sb":"false"}`}},
+			`{"f32":0.5}`, `{"f32":16777216}`, `{"f64":1e-11}`, `{"f64":9007199254740992}`, `{"f64":1.7976931348623157e308}`, `{"sf64":"0.1"}`, `{"sf32":"0.5"}`, `{"sb":"true"}`, `{"sb":"false"}`}},
 }
+
+var reFrac = regexp.MustCompile(`(T\d\d:\d\d:\d\d)\.\d+`)
 
 func fmtMatrixDoc() string {
 	comps := map[string]any{}
@@ -114,6 +117,11 @@ func c04Formats(r *lp.Run, drv *gc.Driver, pkg *gc.Pkg) {
 			}
 			text, _ := again["text"].(string)
 			if !stdValid([]byte(text)) || !jsonEqualRef(parseJSON(text), parseJSON(inst)) {
+				// K14: date-time members are written at one-second resolution
+				if m := reFrac.ReplaceAllString(inst, "$1"); m != inst && stdValid([]byte(text)) && jsonEqualRef(parseJSON(text), parseJSON(m)) {
+					r.Known(lp.PropFail{Property: "C04", Class: "K14", What: "a date-time member loses its fractional seconds when encoded", Input: in, Observed: text, Expected: inst})
+					continue
+				}
 				fail("decoding and re-encoding a complete valid instance changes the document", text, inst)
 				continue
 			}
